@@ -176,9 +176,34 @@ func solveOne(workdir string, idx int, fr *FuncResult, o *Obligation, timeout in
 			return
 		}
 	}
+	defer func() {
+		// No answer on the full query: look for a candidate counter-model with the axioms that only have infinite
+		// models (injectivity of embedded-object addresses) dropped. The verdict stays "not discharged" either way;
+		// the model only feeds the replay on the real code.
+		if o.Expect == "unsat" && o.Status == "undecided" {
+			q := buildQuery(fr, o, false)
+			var keep []string
+			for _, l := range strings.Split(q, "\n") {
+				if !strings.HasSuffix(l, ";relax") {
+					keep = append(keep, l)
+				}
+			}
+			prev := *o
+			t := timeout
+			if t > 5 {
+				t = 5
+			}
+			if raceQuery(workdir, fmt.Sprintf("q%05d-relaxed.smt2", idx), strings.Join(keep, "\n"), o, t, false) && o.Status == "refuted" {
+				o.Solver += "/relaxed-axioms"
+				o.Seconds += prev.Seconds
+				return
+			}
+			*o = prev
+		}
+	}()
 	o.Seconds0 = o.Seconds
-	if o.Expect == "sat" && timeout > 3 {
-		timeout = 3 // vacuity guards: an unknown answer is tolerated, only `unsat` is an alarm
+	if o.Expect == "sat" && timeout > 2 {
+		timeout = 2 // vacuity guards: an unknown answer is tolerated, only `unsat` is an alarm
 	}
 	raceQuery(workdir, fmt.Sprintf("q%05d.smt2", idx), buildQuery(fr, o, false), o, timeout, false)
 	o.Seconds += o.Seconds0
